@@ -37,6 +37,7 @@ func runC22(c *Ctx) {
 		c.undecided(P, "sync", "handlers", "", "WRITE/COMMIT handler missing")
 		return
 	}
+	runC22AckOnSuccess(c, hw)
 	// committed set
 	maxCommitted := int64(-1)
 	var commTok tok
@@ -218,6 +219,7 @@ func runC23(c *Ctx) {
 	const P = "C23"
 	c.rule(P, "wt", "a WRITE refusal bound that derives from TransferSize ⇒ FSINFO wtmax/wtpref derive from TransferSize; constant bound ⇒ wtmax <= bound", 2)
 	c.rule(P, "record", "advertised wtmax (constant or clamp) + 928 bytes of call overhead <= 1 MiB record limit", 1)
+	runC23RecordLimit(c)
 	ent, err := p.entrySet()
 	if err != nil {
 		c.undecided(P, "wt", "entries", "", err.Error())
@@ -366,6 +368,12 @@ func runC25(c *Ctx) {
 		}
 		return false
 	}
+	// "set at construction or at runtime": the limit only binds if an accepted policy update is stored
+	// (borrowed from C16: every successful return of UpdatePolicyOptions has stored the new policy)
+	savedOnly := c.Only
+	c.Only = map[string]bool{"swap": true}
+	runC16As(c, P)
+	c.Only = savedOnly
 	runC25Edges(c, ent, mfs, func(v ssa.Value) bool {
 		return hasOrigin(fl.Origins(v), func(o Origin) bool { return o.Kind == "field" && o.Fld == mfs })
 	})
